@@ -119,3 +119,59 @@ Example C24_order_example :
   alg_gen ex_tree = [(6, Some 6); (7, Some 7); (11, Some 11)] /\ parse_invokes ex_tree = [6; 7; 11].
 Proof. exact ex_tree_pairs. Qed.
 Print Assumptions C24_order_example.
+
+(* ------------------------------------------------------------------------------------------------
+   The PSyIR-based algorithm generation (generator.LFRIC_TESTING; C24/Psyir.v) and the tag keys (C24/Qr.v,
+   keys extracted from the tree under test into C24/GenQr.v).
+   FULL STATEMENT (psyir_positions_aligned): forall cb pre ks,
+       psy_dummies pre ks = map (name_of (final pre ks)) (psyir_alg_args cb ks)
+   FALSE of the code as it is (C24_psyir_positions_aligned_refuted); proved under psyir_safe (no CodeBlock
+   argument, PSyIR equality key = text for every passed argument, i.e. lower-case structure members). *)
+From PV Require Import C24.Psyir C24.GenQr C24.Qr.
+
+Theorem C24_psyir_positions_aligned_partial : forall cb pre ks,
+    psyir_safe cb ks = true ->
+    psy_dummies pre ks = map (name_of (final pre ks)) (psyir_alg_args cb ks).
+Proof. exact psyir_positions_aligned_partial_. Qed.
+Print Assumptions C24_psyir_positions_aligned_partial.
+
+Theorem C24_psyir_positions_aligned_refuted :
+  exists cb pre ks, psy_dummies pre ks <> map (name_of (final pre ks)) (psyir_alg_args cb ks).
+Proof. exact refuted_psyir_aligned. Qed.
+Print Assumptions C24_psyir_positions_aligned_refuted.
+
+(* finding: repeated structure argument passed twice -- invoke(setval_c(obj%v(1), 1.0_r_def), setval_X(f1, OBJ % V( 1 ))) *)
+Theorem C24_psyir_structure_argument_passed_twice_refuted :
+  psyir_alg_args (fun _ => false) wit_struct = ["obj%v(1)"; "f1"; "obj%v(1)"]%string /\
+  psy_dummies ("invoke_0"%string :: nil) wit_struct = ["obj_v"; "f1"]%string /\
+  alg_args_fixed wit_struct = ["obj%v(1)"; "f1"]%string.
+Proof. exact refuted_struct_dup. Qed.
+Print Assumptions C24_psyir_structure_argument_passed_twice_refuted.
+
+(* finding: named single built-in invoke called by its index name; agreement everywhere else *)
+Theorem C24_psyir_routine_names_agree_partial : forall label i ks,
+    named_single_builtin label ks = false -> psyir_rname label i ks = psy_rname label i ks.
+Proof. exact routine_names_agree_partial_. Qed.
+Print Assumptions C24_psyir_routine_names_agree_partial.
+
+Theorem C24_psyir_routine_names_refuted : exists label i ks, psyir_rname label i ks <> psy_rname label i ks.
+Proof. exact routine_names_refuted. Qed.
+Print Assumptions C24_psyir_routine_names_refuted.
+
+(* quadrature: the tag key extracted from lfric_kern.py is the TEXT, hence different texts (qr(1), qr(2)) get
+   different PSy dummies *)
+Theorem C24_qr_names_injective_on_texts : forall pre ks a b,
+    In (text a) (texts_of RQr ks) -> In (text b) (texts_of RQr ks) -> text a <> text b ->
+    qr_name (final pre ks) a <> qr_name (final pre ks) b.
+Proof. exact qr_names_injective_on_texts_. Qed.
+Print Assumptions C24_qr_names_injective_on_texts.
+
+Theorem C24_extracted_tag_keys_are_texts : (forall a, qr_tag a = tagof (text a)) /\ (forall a, arg_tag a = tagof (text a)).
+Proof. split; [exact qr_tag_is_text_tag | exact arg_tag_is_text_tag]. Qed.
+Print Assumptions C24_extracted_tag_keys_are_texts.
+
+Example C24_qr_example :
+  qr_name (final pre0 ex_qr) (ix "qrs" "1") = "qrs"%string /\ qr_name (final pre0 ex_qr) (ix "QRS" " 2") = "qrs_1"%string /\
+  psy_dummies pre0 ex_qr = ["f1"; "qrs"; "qrs_1"]%string /\ alg_args pre0 ex_qr = ["f1"; "qrs(1)"; "qrs(2)"]%string.
+Proof. exact ex_qr_names. Qed.
+Print Assumptions C24_qr_example.
